@@ -231,6 +231,8 @@ def _die_cmp_eval(prog):
         "compare<*": three,
         "doneness_aspect::is_raw": lambda ev, o, a: o.raw,
         "value_die::is_raw": lambda ev, o, a: o.raw,
+        "doneness_aspect::is_cooked": lambda ev, o, a: not o.raw,
+        "value_die::is_cooked": lambda ev, o, a: not o.raw,
         "zw_value::cmp": lambda ev, o, a: ev.call(f, o, [a[0]]),
         "value_die::cmp": lambda ev, o, a: ev.call(f, o, [a[0]]),
         "method:get": lambda ev, o, a: o,
